@@ -76,6 +76,26 @@ Theorem wallet_upgrade_never_half_done : forall env ks,
 Proof. exact wallet_tables_l. Qed.
 Print Assumptions wallet_upgrade_never_half_done.
 
+(* First open of a brand-new file (creation), for both databases: whatever instants the first open and any
+   number of later opens are killed at, the next open succeeds and ends - table by table - in the complete latest
+   schema with its version row, published.  Creation is restartable; in particular no kill can leave a file that
+   claims the current version and lacks a table for good. *)
+Theorem identity_creation_restartable : forall ks,
+  let c := identity_creation ks in
+  c_intx c = false /\ c_view c = c_dur c /\
+  exists tr cf, xopen apply_c version_c identity_ucfg c = (tr, cf, ODone) /\ c_intx cf = false /\
+                forall id, find_tab (c_dur cf) id = find_tab (conc no_rows identity_new) id.
+Proof. exact identity_creation_l. Qed.
+Print Assumptions identity_creation_restartable.
+
+Theorem wallet_creation_restartable : forall ks,
+  let c := wallet_creation ks in
+  c_intx c = false /\ c_view c = c_dur c /\
+  exists tr cf, xopen apply_c version_c wallet_ucfg c = (tr, cf, ODone) /\ c_intx cf = false /\
+                forall id, find_tab (c_dur cf) id = find_tab (conc no_rows wallet_new) id.
+Proof. exact wallet_creation_l. Qed.
+Print Assumptions wallet_creation_restartable.
+
 (* The generic theorem behind them: for any check_database program, any description of the old file and any set R of
    symbolic contents that contains the start and is closed under "open, killed anywhere" (computed: closed_check,
    class_check), every kill history of every concrete file publishes the concretisation of a member of R. *)
@@ -109,7 +129,8 @@ Definition ex_schema : list sql :=
   [QStmt (XCreate 1 [0; 1; 3]%nat 5); QStmt (XCreate 2 [0; 1]%nat 4); QStmt (XCreate 3 [0; 1; 2]%nat 4);
    QStmt (XCreate 0 [O] 2); QStmt (XDeleteEq 0 0 0); QStmt (XInsert false 0 [0; 2])].
 Definition split_ucfg : ucfg :=
-  mkU 2 [(1, [PExecute QBegin; PExecute (QStmt (XRename 3 5)); PScript ex_schema;
+  mkU 2 [PScript ex_schema; PCommit]
+        [(1, [PExecute QBegin; PExecute (QStmt (XRename 3 5)); PScript ex_schema;
               PExecute (QStmt (XInsertSelect true 3 5)); PExecute (QStmt (XDrop 5)); PCommit])]
         [PScript ex_schema; PCommit] [(true, 1); (true, 2); (true, 3)].
 Definition ex_env (s : Z) : list xrow := if s =? 3 then [[7; 8; 9; 6]] else [].
@@ -128,6 +149,22 @@ Proof.
   repeat constructor; cbn; auto; intros [].
 Qed.
 Print Assumptions split_upgrade_refuted.
+
+(* A creation that is NOT restartable (seed C19f): the version row is written before the data table is created
+   (separate autocommit statements, S1) and a current file is not checked again.  Killed at instant 3 of the first
+   open, the file says version 2, has no data table, and every later open leaves it that way. *)
+Definition early_version_ucfg : ucfg :=
+  mkU 2 [PScript [QStmt (XCreate 0 [O] 2); QStmt (XDeleteEq 0 0 0); QStmt (XInsert false 0 [0; 2]);
+                  QStmt (XCreate 4 [O] 4)]; PCommit]
+        [] [] [(false, 4)].
+
+Theorem early_version_creation_refuted :
+  let c := xhistory apply_c version_c early_version_ucfg (fresh_conn []) (kills [3%nat; 100%nat; 100%nat]) in
+  version_c (c_dur c) = Some 2 /\ find_tab (c_dur c) 4 = None /\
+  snd (xopen apply_c version_c early_version_ucfg c) = ODone /\
+  class_check [] early_version_ucfg (reach [] early_version_ucfg []) wallet_new (reach [] early_version_ucfg []) = false.
+Proof. vm_compute. repeat split; reflexivity. Qed.
+Print Assumptions early_version_creation_refuted.
 
 (* ------------------------------------------------------------------------------------------------
    Non-vacuity and the rules at work. *)
